@@ -554,6 +554,13 @@ func hotspotMod() *modDef {
 		&hotspotW{Resource: "hb", MetricType: 1, ParamIndex: 2, Threshold: 0, DurationInSec: 10, ParamsMaxCapacity: 5, SpecificItems: []specW{{1, "x", 0}}},
 		&hotspotW{Resource: "hc", MetricType: 1, ParamKey: "uid", Threshold: 7, DurationInSec: 1},
 		&hotspotW{Resource: "hc", MetricType: 0, ParamIndex: 3, Threshold: 1},
+		// a NEAR-EQUAL pair (pool neighbours, V2 / V3 of var 5): the same rule whose specificItems differ in entries of the
+		// same count - the zero-threshold entries (a blocked string value, a blocked int value) are replaced by others.
+		// After payload [first] then payload [second] GetRules must report the SECOND's specific items.
+		&hotspotW{Resource: "hd", MetricType: 1, ParamIndex: 1, Threshold: 20, BurstCount: 1, DurationInSec: 1,
+			SpecificItems: []specW{{1, "alice", 0}, {0, "7", 0}, {1, "x", 50}, {0, "42", 50}}},
+		&hotspotW{Resource: "hd", MetricType: 1, ParamIndex: 1, Threshold: 20, BurstCount: 1, DurationInSec: 1,
+			SpecificItems: []specW{{1, "bob", 3}, {0, "8", 3}, {1, "x", 50}, {0, "42", 50}}},
 	}
 	m.invalid = []interface{}{
 		&hotspotW{Resource: "", MetricType: 1, Threshold: 5, DurationInSec: 1},
